@@ -5,6 +5,7 @@
 use itertools::Itertools;
 
 use crate::{
+    constant::WORD_SIZE_BITS,
     tc::{lift::Lift, state::TypeCheckerState},
     vm::value::{PackedSpan, RuntimeBoxedVal, RSV, RSVD},
 };
@@ -94,8 +95,10 @@ impl Lift for PackedEncoding {
             let mut spans_are_valid = true;
             let mut last_position = 0;
             for PackedSpan { offset, size, .. } in &spans {
-                spans_are_valid = spans_are_valid && last_position <= *offset;
-                last_position = offset + size;
+                spans_are_valid = spans_are_valid
+                    && last_position <= *offset
+                    && offset.saturating_add(*size) <= WORD_SIZE_BITS;
+                last_position = offset.saturating_add(*size);
             }
 
             // In order to prevent issues with inferring types for unused portions of a
